@@ -216,3 +216,49 @@ pub fn schnorr_sig_total() {
     kani::cover!(r.is_ok() && s.len() == 65, "65-byte signature accepted");
     core::mem::forget(r);
 }
+
+// ---- Transaction::blind on transactions without any output marked for blinding ----
+pub struct NondetRng;
+impl elements::secp256k1_zkp::rand::RngCore for NondetRng {
+    fn next_u32(&mut self) -> u32 {
+        kani::any()
+    }
+    fn next_u64(&mut self) -> u64 {
+        kani::any()
+    }
+    fn fill_bytes(&mut self, dest: &mut [u8]) {
+        let mut i = 0;
+        while i < dest.len() {
+            dest[i] = kani::any();
+            i += 1;
+        }
+    }
+    fn try_fill_bytes(&mut self, dest: &mut [u8]) -> Result<(), elements::secp256k1_zkp::rand::Error> {
+        self.fill_bytes(dest);
+        Ok(())
+    }
+}
+impl elements::secp256k1_zkp::rand::CryptoRng for NondetRng {}
+
+//@ prop=C10 tier=quick secp=1 mem=40 timeout=1500 desc="Transaction::blind with no output marked for blinding (a single fee output, symbolic asset and amount): returns Err(TooFewBlindingOutputs), never panics"
+#[kani::proof]
+#[kani::unwind(8)]
+#[kani::stub(<core::any::TypeId as crate::stubs::traits::PEq>::eq, crate::stubs::typeid_eq_model)]
+pub fn blind_without_marked_outputs() {
+    use elements::confidential::{Asset, Nonce as CNonce, Value as CValue};
+    use elements::hashes::Hash;
+    let secp = crate::util::model_secp();
+    let asset = elements::AssetId::from_byte_array(kani::any());
+    let (v1, v2): (u64, u64) = (kani::any(), kani::any());
+    let with_second: bool = false; // a second, unmarked explicit output makes the harness run out of memory
+    let mut output = vec![elements::TxOut::new_fee(v1, asset)];
+    if with_second {
+        output.push(elements::TxOut { asset: Asset::Explicit(asset), value: CValue::Explicit(v2), nonce: CNonce::Null, script_pubkey: Script::from(vec![0x51]), witness: elements::TxOutWitness::default() });
+    }
+    let mut tx = elements::Transaction { version: 2, lock_time: elements::LockTime::ZERO, input: vec![], output };
+    let r = tx.blind(&mut NondetRng, &secp, &[], false);
+    assert!(matches!(r, Err(elements::BlindError::TooFewBlindingOutputs)), "nothing to blind is reported as an error");
+    kani::cover!(true, "reached");
+    core::mem::forget(r);
+    core::mem::forget((tx, secp));
+}
